@@ -13,7 +13,7 @@ from mc.core import Judgement, Recorder
 PROPERTY = "C19"
 RULE = (
     "E3 explicit-state BFS over real PluginManager objects against an ordered-list reference model. Universe: synthetic "
-    "plug-ins X{m1,m2,sub/m5 (a method name with a slash)}, Y{m2,m3,M4 (case-sensitive)}, Z{m1, allows_discovery=False}; names a/A/b/c (and Maße/maße in a separate closure); transitions add_plugin(name, plugin, "
+    "plug-ins X{m1,m2,sub/m5 (a method name with a slash)}, Y{m2,m3,M4 (case-sensitive)}, Z{m1, allows_discovery=False}; names a/A/b/c (and Maße/maße in a separate closure; one closure registers ONE object per tag under several names); transitions add_plugin(name, plugin, "
     "prioritize in {F,T}) on manager 1 (or 1 and 2); state = tuple(plugins(type)) per manager (fully observable, so merging "
     "equal states is sound); BFS to closure; in EVERY state ALL queries (bare m1,m2,m3,nope,slsqp,default; explicit a/m1, "
     "A/m2, b/m3, c/m1, zz/m1, scipy/slsqp, SciPy/SLSQP, external/slsqp, external/m1) are evaluated through get_plugin and "
@@ -51,13 +51,24 @@ SYN_QUERIES = ["m1", "m2", "m3", "nope", "a/m1", "A/m2", "b/m3", "c/m1", "zz/m1"
                "maße/m1", "MAßE/m2", "Maße/nope"]
 # Y is case-sensitive about its method M4: the manager must ask a plug-in about the method as requested (only plug-in
 # NAMES are case-insensitive)
-SUPPORTS = {"X": {"m1", "m2", "sub/m5"}, "Y": {"m2", "m3", "M4"}, "Z": {"m1"}}
+# X also supports the method called "default" (the built-in plug-ins do too): a bare "default" is a bare name like any other
+SUPPORTS = {"X": {"m1", "m2", "sub/m5", "default"}, "Y": {"m2", "m3", "M4"}, "Z": {"m1"}}
 DISCOVER = {"X": True, "Y": True, "Z": False}
 _PLUGINS: dict[str, Any] = {}
 
 
 def plugin(tag: str, key: Any = None) -> Any:
-    """A fresh synthetic plug-in object per registration (so identity identifies the registration)."""
+    """A fresh synthetic plug-in object per registration (so identity identifies the registration); with a `key` dict the
+    same object is handed out for the same tag (one plug-in object registered under several names)."""
+    if key is not None and tag in key:
+        return key[tag]
+    obj = _new_plugin(tag)
+    if key is not None:
+        key[tag] = obj
+    return obj
+
+
+def _new_plugin(tag: str) -> Any:
     from ropt.plugins.base import Plugin
 
     if "cls" not in _PLUGINS:
@@ -120,10 +131,12 @@ class Model:
         return None
 
 
-def build(ptype: str, hist: list[Any], n_mgr: int) -> dict[str, Any]:
+def build(ptype: str, hist: list[Any], n_mgr: int, shared: bool = False) -> dict[str, Any]:
     """Replay a history on fresh real managers and models; collect per-step verdicts."""
     from ropt.exceptions import ConfigError
     from ropt.plugins import PluginManager
+
+    objects: dict[str, Any] | None = {} if shared else None
 
     mgrs = [PluginManager() for _ in range(n_mgr)]
     initial = [[(n, tag_of(p)) for n, p in m.plugins(ptype)] for m in mgrs]
@@ -135,7 +148,7 @@ def build(ptype: str, hist: list[Any], n_mgr: int) -> dict[str, Any]:
             before_other = [[(n, tag_of(p)) for n, p in m.plugins(ptype)] for m in mgrs]
             expected_ok = models[mi].add(name, tag, prio)
             try:
-                mgrs[mi].add_plugin(ptype, name, plugin(tag), prioritize=prio)
+                mgrs[mi].add_plugin(ptype, name, plugin(tag, objects), prioritize=prio)
                 ok = True
             except ConfigError:
                 ok = False
@@ -183,7 +196,11 @@ def check_state(obj: dict[str, Any], hist: list[Any], queries: list[str]) -> lis
                 expected = model.get(q, builtin_answers)
                 try:
                     got_obj = mgr.get_plugin(ptype, q)
-                    got = next((n for n, p in mgr.plugins(ptype) if p is got_obj), "?")
+                    by_name = {fold(n): p for n, p in mgr.plugins(ptype)}
+                    if expected is not None and by_name.get(fold(expected)) is got_obj:
+                        got = expected  # (one object may be registered under several names)
+                    else:
+                        got = next((n for n, p in mgr.plugins(ptype) if p is got_obj), "?")
                 except ConfigError:
                     got = None
                 except Exception as exc:  # noqa: BLE001
@@ -245,7 +262,7 @@ def _fresh_answer(ptype: str, query: str) -> Any:
 
 
 def explore(ptype: str, n_mgr: int, names: list[str], tags: list[str], depth: int, merge: bool, lookups: list[str] | None,
-            rec: Recorder, label: str) -> None:
+            rec: Recorder, label: str, shared: bool = False) -> None:
     add_events = [("add", mi, name, tag, prio) for mi in range(n_mgr) for name in names for tag in tags for prio in (False, True)]
     lookup_events = [("lookup", mi, kind, q) for mi in range(n_mgr) for kind in ("get", "sup") for q in (lookups or [])]
     queries = SYN_QUERIES
@@ -263,10 +280,10 @@ def explore(ptype: str, n_mgr: int, names: list[str], tags: list[str], depth: in
             j.fail(sig, **(detail if isinstance(detail, dict) else {"detail": detail}))
         seen_states += 1
         key = (label, observe_state(obj)) if merge else (label, tuple(map(tuple, hist)))
-        rec.add(key, {"ptype": ptype, "n_mgr": n_mgr, "history": [list(e) for e in hist]}, j)
+        rec.add(key, {"ptype": ptype, "n_mgr": n_mgr, "history": [list(e) for e in hist], "shared": shared}, j)
         return []
 
-    result = bfs_mod.bfs(lambda hist: build(ptype, hist, n_mgr), events, lambda obj, hist: observe_state(obj), check,
+    result = bfs_mod.bfs(lambda hist: build(ptype, hist, n_mgr, shared), events, lambda obj, hist: observe_state(obj), check,
                          max_depth=depth, merge=merge)
     rec.result.extra[f"bfs_states:{label}"] = result.states
     rec.result.extra[f"bfs_transitions:{label}"] = result.transitions
@@ -293,6 +310,11 @@ def shards(tier: str, seed: int) -> list[dict[str, Any]]:
                     "lookups": ["m1", "A/m1"], "label": "optimizer:2mgr:nomerge3"})
     out.append({"ptype": "optimizer", "n_mgr": 1, "names": ["Maße", "maße", "b"], "tags": ["X", "Z"], "depth": 6, "merge": True, "lookups": None,
                 "label": "optimizer:1mgr:closure-non-ascii"})
+    # ONE plug-in object per tag, registered under several names (aliases)
+    out.append({"ptype": "optimizer", "n_mgr": 1, "names": ["a", "b", "c"], "tags": ["X", "Y"], "depth": 6, "merge": True, "lookups": None,
+                "label": "optimizer:1mgr:closure-aliases", "shared": True})
+    out.append({"ptype": "sampler", "n_mgr": 1, "names": ["a", "b"], "tags": ["X", "Z"], "depth": 6, "merge": True, "lookups": None,
+                "label": "sampler:1mgr:closure-aliases", "shared": True})
     for ptype in TYPES[1:]:
         out.append({"ptype": ptype, "n_mgr": 1, "names": ["a", "A", "b"], "tags": full_tags, "depth": 6, "merge": True,
                     "lookups": None, "label": f"{ptype}:1mgr:closure"})
@@ -302,13 +324,13 @@ def shards(tier: str, seed: int) -> list[dict[str, Any]]:
 def run_shard(shard: dict[str, Any]) -> core.ShardResult:
     rec = Recorder(shard)
     explore(shard["ptype"], shard["n_mgr"], shard["names"], shard["tags"], shard["depth"], shard["merge"], shard["lookups"],
-            rec, shard["label"])
+            rec, shard["label"], bool(shard.get("shared")))
     return rec.finish()
 
 
 def run_case(case: dict[str, Any]) -> Judgement:
     hist = [tuple(e) for e in case["history"]]
-    obj = build(case["ptype"], hist, case["n_mgr"])
+    obj = build(case["ptype"], hist, case["n_mgr"], bool(case.get("shared")))
     j = Judgement()
     for sig, detail in check_state(obj, hist, SYN_QUERIES):
         j.fail(sig, **(detail if isinstance(detail, dict) else {"detail": detail}))
